@@ -213,3 +213,9 @@ Definition verdict_c17 (x : N * list record * list oentry) : N :=
   let prop := last_comm_clause rs os && lifetimes_clause origin [] rs os && exec_clause origin rs os && fork_inherit_clause [] rs os in
   (if existsb (fun r => match r with RComm _ _ _ _ _ => true | _ => false end) rs && existsb (fun r => match r with RFork _ _ _ _ _ => true | _ => false end) rs then 10 else 0) +
   (if negb prop then 2 else if conform entry_names_times_eqb ms os then 0 else 1).
+
+(* for histories of the class of known finding F-C17 (a thread outliving its process's main thread): does the output equal what the model -
+   which transcribes the code as built, that simplification included - yields?  1 = yes (the recorded finding and nothing else), 0 = no *)
+Definition verdict_c17_asbuilt (x : N * list record * list oentry) : N :=
+  let '(origin, rs, os) := x in
+  if conform entry_names_times_eqb (show (run origin rs)) os then 1 else 0.
